@@ -179,6 +179,10 @@ def load_events(fails):
                     found[(path, int(m.group(1)))] = json.loads(line)
     for f in fails:
         f["event"] = found.get((f["shard"], f["id"]))
+        # stateful traces: keep the whole session of the rejected line so that the replay file is self-contained
+        if f["event"] and "sid" in f["event"]:
+            sid = f["event"]["sid"]
+            f["session"] = [json.loads(l) for l in open(f["shard"]) if f'"sid":{sid},' in l]
     return fails
 
 
@@ -233,7 +237,7 @@ def write_replays(prop, new_fails, limit=20):
     paths = []
     for n, f in enumerate(new_fails[:limit]):
         path = f"{d}/{prop}-{n}.json"
-        json.dump({"property": prop, "verdict": f["verdict"], "tlc_event_id": f["id"], "event": f.get("event"),
+        json.dump({"property": prop, "verdict": f["verdict"], "tlc_event_id": f["id"], "event": f.get("event"), "session": f.get("session"),
                    "how": f"bin/check {prop} --replay {path}   (re-judges this recorded event with TLC; the event holds the "
                           "exact inputs, config and build, so the call can be re-issued against the library)"},
                   open(path, "w"))
